@@ -104,10 +104,15 @@ theorem gvNextStep_length (m : MlpgMatrix K) (par : List K) (sw : List Bool) (g 
   unfold gvNextStep
   simp [h1, h2, hp, hs, hg]
 
+/-- `conv_gv` either leaves `par` alone (no positive variance) or zips it with the switch -/
 theorem convGv_length (par : List K) (sw : List Bool) (gvLen : Nat) (gm : K) :
-    (convGv par sw gvLen gm).length = min par.length sw.length := by
+    min par.length sw.length ≤ (convGv par sw gvLen gm).length ∧
+      (convGv par sw gvLen gm).length ≤ par.length := by
   unfold convGv
-  simp
+  simp only
+  split
+  · simp
+  · simp
 
 theorem gvLoop_length (m : MlpgMatrix K) (sw : List Bool) (gm gv : K) (gvLen : Nat) (half sd si : K)
     (n : Nat) (h1 : m.wuw.length = n) (h2 : m.wum.length = n) (h3 : m.length = n) (hs : sw.length = n)
@@ -130,7 +135,9 @@ theorem gvParmgen_length (m : MlpgMatrix K) (par : List K) (sw : List Bool) (gm 
   split
   · exact hp
   · apply gvLoop_length m sw _ _ _ _ _ _ n h1 h2 h3 hs
-    rw [convGv_length, hp, hs]; simp
+    have := convGv_length par sw (sw.filter id).length gm
+    rw [hp, hs] at this
+    omega
 
 
 theorem par_length (mtx : MlpgMatrix K) (gv : Option (List (MeanVari K) × List Bool)) (m : Nat) (gw : K)
@@ -304,13 +311,20 @@ theorem gvLoop_length_le (m : MlpgMatrix K) (sw : List Bool) (gm gv : K) (gvLen 
     apply ih
     exact gvNextStep_length_le _ _ _ _ _ _ _ _ _
 
+/-- after at least one step the length is bounded by the switch, whatever the start -/
+theorem gvLoop_length_le_succ (m : MlpgMatrix K) (sw : List Bool) (gm gv : K) (gvLen : Nat) (half sd si : K)
+    (fuel : Nat) (i : Nat) (par : List K) (step prev : K) :
+    (gvParmgen.loop m sw gm gv gvLen half sd si i (fuel + 1) par step prev).length ≤ sw.length := by
+  rw [gvParmgen.loop]
+  simp only
+  apply gvLoop_length_le
+  exact gvNextStep_length_le _ _ _ _ _ _ _ _ _
+
 theorem gvParmgen_length_le (m : MlpgMatrix K) (par : List K) (sw : List Bool) (gm gv : K)
     (h : (sw.filter id).length ≠ 0) : (gvParmgen m par sw gm gv).length ≤ sw.length := by
   unfold gvParmgen
   simp only [h, if_false]
-  apply gvLoop_length_le
-  rw [convGv_length]
-  omega
+  exact gvLoop_length_le_succ m sw _ _ _ _ _ _ 4 1 _ _ _
 
 theorem maskFill_short {β : Type} (xs : List β) (d : β) (h : xs.length ≤ 1) :
     maskFill [true, true] xs d = none := by
